@@ -141,6 +141,21 @@ func vfGenExt(t *rapid.T, idx int, earlier []vfExt) vfExt {
 	for i, n := 0, rapid.IntRange(0, 2).Draw(t, "nalias"); i < n; i++ {
 		e.Aliases = append(e.Aliases, fmt.Sprintf("application/x-verif-alias-%d-%d", idx, i))
 	}
+	// the same name may be registered again (under the same or another parent), or collide with
+	// a built-in format: every Extend call still adds a new node in front of the existing siblings
+	switch rapid.IntRange(0, 9).Draw(t, "dup") {
+	case 0:
+		if len(earlier) > 0 {
+			e.Mime = rapid.SampledFrom(earlier).Draw(t, "dupof").Mime
+		}
+	case 1:
+		if len(earlier) > 0 {
+			d := rapid.SampledFrom(earlier).Draw(t, "dupof")
+			e.Mime, e.Ext, e.Parent = d.Mime, d.Ext, d.Parent
+		}
+	case 2:
+		e.Mime = rapid.SampledFrom([]string{"text/html", "application/zip", "application/json", "text/plain", "image/png"}).Draw(t, "builtin")
+	}
 	return e
 }
 
